@@ -34,11 +34,11 @@ class C02(Scenario):
                    "order-independence (sums within tolerance) and the no-op rule for non-positive weights are demanded"]
     expected_faults = ["reorder", "delay"]
     expected_probes = ["nonpositive_weight_delivery", "edge_value_delivery", "nonfinite_delivery", "none_category_delivery", "empty_tree_via_zero", "empty_tree_via_iadd_empty",
-                       "empty_tree_via_pickle"]
+                       "empty_tree_via_pickle", "interrupted_iadd_empty", "interrupted_pickle"]
 
     def generate(self, rng, tier, profile):
         big = tier == "thorough"
-        opts = specmod.merge_opts(depth=5 if big else 4, max_nodes=40 if big else 24, regime=profile, count_transform=0.08)
+        opts = specmod.merge_opts(depth=5 if big else 4, max_nodes=40 if big else 24, regime=profile, count_transform=0.08, count_same_transform=0.06)
         sp = specmod.gen_spec(rng.fork("tree"), opts)
         crit = specmod.critical_values(sp, profile)
         d = rng.fork("data")
@@ -54,6 +54,9 @@ class C02(Scenario):
         while len(sch):
             t, _, actor, i = sch.pop()
             steps.append({"op": "deliver", "to": int(actor[1]), "rec": i, "w": specmod.enc_float(ws[i]), "actor": actor, "t": t})
+            if s.chance(0.03):
+                # the consumer checkpoints / merges an empty partial / copies its tree in the middle of the stream
+                steps.append({"op": "interrupt", "to": int(actor[1]), "how": s.pick(["iadd_empty", "iadd_zero", "add_empty", "pickle", "copy"]), "actor": actor, "t": t})
         # the second replica's empty tree is not always fresh from the constructor: any empty tree must do
         origin = rng.fork("knobs").pick(["ctor", "ctor", "zero", "copy", "pickle", "iadd-empty", "add-empty", "zero-of-sum"])
         return {"spec": sp, "records": [specmod.enc_record(r) for r in recs], "steps": steps, "regime": profile, "origin": origin}
@@ -119,6 +122,31 @@ class C02(Scenario):
         special = 0
         units = 0
         for si, st in enumerate(case["steps"]):
+            if st["op"] == "interrupt":
+                k = st["to"]
+                if k in reps:
+                    import pickle
+
+                    def interrupted(x, how=st["how"]):
+                        if how == "iadd_empty":
+                            x += w.build(0).value
+                            return x
+                        if how == "iadd_zero":
+                            x += x.zero()
+                            return x
+                        if how == "add_empty":
+                            return x + w.build(0).value
+                        if how == "pickle":
+                            return pickle.loads(pickle.dumps(x))
+                        return x.copy()
+
+                    before = observe.observe(reps[k])
+                    o = call(interrupted, reps[k])
+                    if o.ok and observe.observe(o.value) == before:
+                        reps[k] = o.value
+                        w.put(k, o.value)
+                        w.bump("probe_interrupted_" + st["how"])
+                continue
             k, i = st["to"], st["rec"]
             if i >= len(w.records) or k not in reps:
                 continue
